@@ -96,6 +96,8 @@ fn main() {
             },
         };
         writeln!(out, "{}", res.to_line()).unwrap();
+        // one answer per case as soon as it exists: the driver watches for a case that never answers
+        out.flush().unwrap();
     }
     out.flush().unwrap();
 }
